@@ -3,6 +3,6 @@
 set -e
 cd "$(dirname "$0")"
 rm -f model.ml model.mli
-coqc -Q ../coq/Model GS.Model ../coq/Extract/Extract.v >/dev/null
+coqc -Q ../coq/Model GS.Model -Q ../coq/Spec GS.Spec ../coq/Extract/Extract.v >/dev/null
 ocamlfind ocamlopt -O3 -w -a model.mli model.ml driver.ml -o model_runner 2>&1 | grep -v "^ocamlfind: \[WARNING\]\|options -O3 is only relevant" || true
 test -x model_runner
